@@ -1176,7 +1176,7 @@ func runC16(r *Run) {
 			c.SetAdd("site_classes_with_nasty_string", cl)
 		}
 		k.flush()
-		if c.Idx < 400 && len(errs) > 0 && len(errs) < 4 && c16HasNasty(errs[0].Message) && c.R.Intn(20) == 0 {
+		if (c.Idx < 6 && len(errs) > 0) || (c.Idx < 400 && len(errs) > 0 && len(errs) < 4 && c16HasNasty(errs[0].Message) && c.R.Intn(20) == 0) {
 			c.Sample(map[string]interface{}{"src": src, "errors": c16ErrList(errs)})
 		}
 	}})
